@@ -426,6 +426,10 @@ func (Area) Gen(r *rand.Rand, tier string, emit func(string)) {
 
 	// the real ReflectionRouter: aggregateWatcher over the real router watchers, Remove at four points
 	genRR(r, tier, emit)
+	// the real sync.OnceFunc under n concurrent callers
+	for _, n := range []int{0, 1, 2, 3, 8, 32} {
+		emit(fmt.Sprintf("once %d", n))
+	}
 
 	amb := baseContract(3)
 	amb2 := variant(r, amb, 5)
